@@ -41,6 +41,11 @@ fn perrno(e: &subprocess::PopenError) -> Option<i32> {
 fn run_one(v: &Value, out: &mut Vec<String>) {
     let detached_cfg = v["detached"].as_bool().unwrap_or(false);
     let mut cfg = PopenConfig { detached: detached_cfg, setpgid: v["setpgid"].as_bool().unwrap_or(false), ..Default::default() };
+    if v["pipe_stdout"].as_bool().unwrap_or(false) {
+        // the handle keeps the reading end of the child's stdout pipe; the real child (`true`) is gone at once, so that
+        // pipe has hung up while the simulated child lives on -- a child that closed its stdout and keeps running
+        cfg.stdout = subprocess::Redirection::Pipe;
+    }
     if v["clone_cfg"].as_bool().unwrap_or(false) {
         // the configuration is a template: what is launched is a clone of it
         let c = cfg.try_clone().expect("try_clone");
